@@ -371,7 +371,7 @@ def g3(ctx):
     for c in bo:
         okb = role_mentions_call(orb.role_of_operand(c.args[2]), "generators") and strip_role(orb.role_of_operand(c.args[0])) == ("param", "s") and role_mentions_field(orb.role_of_operand(c.args[1]), "identity")
     ctx.check(okb, "orbit-from-generators", "orbit(s) = keys of build_ot(s, identity, generators())", "orbit(s) is not computed from all generators of the group", where_of(orb))
-    ks = role_mentions_call(orb.role_of_local(0), "keys")
+    ks = role_mentions_call(orb.role_of_local(0), "keys") or role_mentions_call(orb.role_of_local(0), "into_keys")
     ctx.check(ks, "orbit-is-keyset", "orbit returns the key set of the orbit table", "orbit does not return the orbit table's keys", where_of(orb))
     gi = fn(crate, "generators_impl", GRP)
     at = crate.deps(gi).atoms_of_local(gi, 0)
@@ -495,6 +495,9 @@ def g6(ctx):
     b = fn(crate, "build_ot")
     ins = [c for c in b.calls if c.callee and c.callee.name == "insert" and len(c.args) == 3 and "HashMap<slot::Slot" in optype(b, c.args[0]) and not b.blocks[c.bb]["cleanup"]]
     inner = [c for c in ins if strip_role(b.role_of_operand(c.args[2]))[0] == "call" and strip_role(b.role_of_operand(c.args[2]))[1] == "compose"]
+    # `ot.entry(new[stab]).or_insert(new)`: insert-unless-present by construction
+    inner += [c for c in b.calls if c.callee and c.callee.name in ("or_insert", "or_insert_with") and len(c.args) == 2 and not b.blocks[c.bb]["cleanup"]
+              and role_mentions_call(b.role_of_operand(c.args[0]), "entry") and role_mentions_call(b.role_of_operand(c.args[1]), "compose")]
     ctx.floor("orbit-table extensions in build_ot", len(inner), 1)
     for c in inner:
         def _grew(t, cond):
